@@ -236,7 +236,14 @@ int main(void)
 	PROP(rc == 0, "a well-formed undo file is accepted");
 	PROP(vf_data.tdb_data_size == TDS && vf_data.tdb_written == 1, "undo block size taken from the header");
 	PROP(vf_data.num_keys == NK && vf_data.super_blk_num == 1 && vf_data.first_key_blk == 2, "header fields taken over");
-#if NK > 0
+#if NK > 0 && (NK % KPB) == 0
+	/* the last key block of the file is exactly FULL: the writer that filled it had already moved on to a fresh key
+	 * block placed directly behind the last key's data (write_undo_indexes), so the re-opened state must be that one */
+	PROP(vf_data.key_blk_num == lblk, "full last key block: the next key block goes directly behind the last key's data");
+	PROP(vf_data.undo_blk_num == lblk + 1, "full last key block: data recording continues behind the new key block");
+	PROP(vf_data.keys_in_block == 0, "full last key block: the new key block is empty");
+	for (j = 0; j < 0; j++)
+#elif NK > 0
 	PROP(vf_data.key_blk_num == kpos, "current key block is the last key block of the file");
 	PROP(vf_data.undo_blk_num == lblk, "recording continues directly behind the last key's data");
 	PROP(vf_data.keys_in_block == exp_kib, "fill level of the current key block as in the file");
